@@ -17,7 +17,7 @@ package c01
 //
 // Bounds (quick | thorough): W in {2,3,4} | {2,3,4,5} with every n in 1..W^3+W, K=3, exact length;
 // thorough adds the length n*K-1 (",short"), K=16 (",K=16") and the default width 174 with
-// n in 1..176, 348, 349, 30277. n=0 (the empty file) is the same input in every class and is
+// n in 1..176, 348, 349, and 30277 (zeros, period3, halves only). n=0 (the empty file) is the same input in every class and is
 // covered by the main loop.
 //
 // Case ids: builder:W=<W>,n=<n>,content=<class>[,short|,K=16]/<direct|reify|preload>
@@ -97,6 +97,9 @@ func repetitive(t *testing.T, r *vp.Run) {
 					continue
 				}
 				for ci, class := range repetitiveClasses {
+					if n == 30277 && class != "zeros" && class != "period3" && class != "halves" {
+						continue // 90 KB read byte by byte: three classes are enough
+					}
 					id := fmt.Sprintf("builder:W=%d,n=%d,content=%s%s", w, n, class, v.suffix)
 					want := repetitiveContent(class, n, v.k, int64(w*1000000+n*10+ci))
 					want = want[:len(want)-v.short]
